@@ -41,7 +41,8 @@ def hist_scalar(rng):
         ln = gen.scalar_op_line(rng, c, inplace=True)
         h += ['nvalid a', ln, 'nvalid a', 'state a']
         ln2 = ln.replace(' a ', ' b ', 1).replace(' inplace=1', ' r=t')
-        h += [ln2, 'state b', 'state t']
+        # (the operand's count is cached before the copying form, the result's count read after it)
+        h += ['nvalid b', ln2, 'state b', 'state t', 'nvalid t', 'valid t']
         if rng.random() < 0.4:
             # the result is a map like any other: keep writing to it (growth into new coverage pixels included)
             tcfg = twin(c, 't')
